@@ -339,6 +339,10 @@ def leafClasses : List (String × Cls) := [
   ("regManager.registeredDecoys.register", .clean),
   ("lib.RegistrationManager.TrackRegistration: regManager.registeredDecoys.Track", .clean),
   ("lib.executeHTTPRequest: http.Post", .clean),      -- the registration API of a peer station (configured URL)
+  -- the same calls handed a protobuf message / payload that holds the registrant's address (C2SWrapper shared
+  -- with a peer station): marshalling errors name fields, not values; `*url.Error` names the configured URL and
+  -- the transport error towards the peer, never the body
+  ("proto.Marshal ⚑", .clean), ("lib.executeHTTPRequest: http.Post ⚑", .clean),
   -- phantom selection, transport parameters and ports: arithmetic on subnets, protobuf decoding, HKDF streams
   ("lib.RegistrationManager.NewRegistration: rm.Selector().Select", .clean),
   ("lib.RegistrationManager.getPhantomDstPort: transport.GetDstPort", .clean),
